@@ -50,6 +50,9 @@ const (
 	KLoad       Kind = "Load"
 	KGetStable  Kind = "GetStable"
 	KClose      Kind = "Close"
+	// KMetaClose: MetaStore.Close (not mutating; a point where a schedule can hold Close after it
+	// has replaced the state and before it lets go of it)
+	KMetaClose Kind = "MetaClose"
 )
 
 func (k Kind) Mutating() bool {
@@ -605,6 +608,9 @@ func (m *Meta) SetStable(key, value []byte) error {
 
 // Close marks the view closed. With CloseErr set it reports that error (the store is closed all the same).
 func (m *Meta) Close() error {
+	if _, _, err := m.fs.begin(KMetaClose, "", 0, 0); err != nil && !errors.Is(err, ErrCrashed) {
+		return err
+	}
 	m.mu.Lock()
 	defer m.mu.Unlock()
 	m.closed = true
